@@ -6,7 +6,7 @@
 From Coq Require Import QArith.
 From Isobar Require Import Base.Prelude Clock.Multiplier Clock.MultiplierProofs
      Clock.ClockRun Clock.ClockRunProofs Clock.MidiIn Clock.MidiInProofs
-    Clock.MidiInTimed Clock.MidiInTimedProofs.
+    Clock.MidiInTimed Clock.MidiInTimedProofs Clock.MidiInWired Clock.MidiInWiredProofs.
 Local Open Scope Z_scope.
 
 Lemma multiple_of_some a b : 0 < a -> 0 < b -> multiple_of (Some a) (Some b) = (a, b).
@@ -295,6 +295,58 @@ Theorem C14_midi_tempo_bounded : forall xs unit ht lo hi l s,
 Proof. exact est_bounded. Qed.
 Print Assumptions C14_midi_tempo_bounded.
 
+(** 3c. ... with the device WIRED to a real Timeline (`Timeline(clock_source=midi_in)`): the callback composed with the
+    Timeline's reaction, including the calls the Timeline makes back on the device while reacting — Timeline.stop()
+    calls clock_source.stop(), Timeline.start() runs clock_source.run() — and user-level timeline.stop() / start() /
+    reset() calls between two messages.  Histories: ANY list of such events, from any state. *)
+
+(* for every history on which no device rate is refused: the number of Timeline.tick() calls after each event is the
+   number of 'clock' messages so far (one tick per clock message, whatever stop / start / song-position messages and
+   user-level calls lie in between), the position is rewound only by 'songpos 0' / reset(), and at the end exactly
+   count('clock') ticks have been made *)
+Theorem C14_midi_wired_ticks : forall evs unit w obs wf,
+  wired_run unit w evs = (obs, wf, TLOk) ->
+  map o_ticks obs = tick_counts (w_ticks w) evs
+  /\ map o_pos obs = wpositions (w_pos w) evs
+  /\ w_ticks wf = w_ticks w + Z.of_nat (count_clock_ev evs)
+  /\ last (tick_counts (w_ticks w) evs) (w_ticks w) = w_ticks w + Z.of_nat (count_clock_ev evs).
+Proof.
+  intros evs unit w obs wf H. destruct (wired_run_spec evs unit w obs wf H) as [A [B [C _]]].
+  repeat split; try assumption. apply tick_counts_last.
+Qed.
+Print Assumptions C14_midi_wired_ticks.
+
+(* the output devices: the k-th 'clock' message carries exactly the device ticks of the k-th tick of an uninterrupted
+   timeline at 24 PPQN (so C14_ratio_* / C14_beat_window / C14_midi_24 apply unchanged), and no other event ticks a
+   device; hence two histories with the same number of clock messages tick the devices identically *)
+Theorem C14_midi_wired_devices : forall evs unit w obs wf,
+  wired_run unit w evs = (obs, wf, TLOk) ->
+  tl_run (Some MIDI_PPQN) (w_devs w) (count_clock_ev evs) = (clock_dev_ticks evs obs, TLOk)
+  /\ others_quiet evs obs.
+Proof.
+  intros evs unit w obs wf H. destruct (wired_run_spec evs unit w obs wf H) as [_ [_ [_ [A [B _]]]]]. split; assumption.
+Qed.
+Print Assumptions C14_midi_wired_devices.
+
+Theorem C14_midi_wired_transparent : forall unit1 unit2 w1 w2 evs1 evs2 obs1 obs2 wf1 wf2,
+  w_devs w1 = w_devs w2 ->
+  count_clock_ev evs1 = count_clock_ev evs2 ->
+  wired_run unit1 w1 evs1 = (obs1, wf1, TLOk) ->
+  wired_run unit2 w2 evs2 = (obs2, wf2, TLOk) ->
+  clock_dev_ticks evs1 obs1 = clock_dev_ticks evs2 obs2.
+Proof. exact wired_transport_transparent. Qed.
+Print Assumptions C14_midi_wired_transparent.
+
+(* re-entry: the calls the Timeline makes back on the device (stop(), run()) leave it in the state its callback alone
+   would have produced on the same messages *)
+Theorem C14_midi_wired_reentry : forall evs unit w obs wf,
+  wired_run unit w evs = (obs, wf, TLOk) ->
+  w_src wf = cb_state unit (w_src w) (msgs_of evs).
+Proof.
+  intros evs unit w obs wf H. destruct (wired_run_spec evs unit w obs wf H) as [_ [_ [_ [_ [_ A]]]]]. exact A.
+Qed.
+Print Assumptions C14_midi_wired_reentry.
+
 (** ---------------------------------------------------------------------------------------------
     The closed-form variants evaluated by the correspondence harness ARE the models above
     --------------------------------------------------------------------------------------------- *)
@@ -346,3 +398,18 @@ Example C14_midi_timed_nonvacuous :
   /\ map (fun p => option_map Qred (snd p)) (cb_run 1000 true ts0 [TM 0 0 Clock; TM 20 20 Clock; TM 30 30 (NoteLike 1); TM 40 40 Clock])
      = [None; Some (125 # 1)%Q; Some (125 # 1)%Q; Some (125 # 1)%Q].
 Proof. split; [vm_compute; reflexivity | split; [cbn; lia | vm_compute; reflexivity]]. Qed.
+
+(* a 12-PPQN and a rate-less device on a timeline wired to the MIDI input: clock, stop message, two clocks, user-level
+   timeline.stop(), clock, songpos 0, clock, start message, clock — six clock messages, six Timeline ticks *)
+Example C14_midi_wired_nonvacuous :
+  let evs := [EvMsg (TM 0 0 Clock); EvMsg (TM 5 5 Stop); EvMsg (TM 20 20 Clock); EvMsg (TM 40 40 Clock); EvUserStop;
+              EvMsg (TM 60 60 Clock); EvMsg (TM 61 61 (SongPos 0)); EvMsg (TM 80 80 Clock); EvMsg (TM 81 81 Start);
+              EvMsg (TM 100 100 Clock)] in
+  let '(obs, wf, r) := wired_run 1000 (w_new [Some 12; None]) evs in
+  r = TLOk
+  /\ map o_ticks obs = [1; 1; 2; 3; 3; 4; 4; 5; 5; 6]
+  /\ map o_pos obs = [1; 1; 2; 3; 3; 4; 0; 1; 1; 2]
+  /\ map (fun o => map rcall_code (o_calls o)) obs
+     = [[0; 1]; [10; 20; 11; 21; 40]; [1]; [0; 1]; [10; 20; 11; 21; 40]; [1]; []; [0; 1]; [30; 31; 41]; [1]]
+  /\ w_ticks wf = 6.
+Proof. vm_compute. repeat split. Qed.
